@@ -780,13 +780,13 @@ def run(chk):
     if repaired:
         chk.stale_known.append("features listed as deviating that now erase correctly: " + ", ".join(repaired))
 
-    n_dec = 8 if chk.tier == "quick" else 60
+    n_dec = 8 if chk.tier == "quick" else 240
     cases = []
     for name, sk in SKELETONS.items():
         plain = fill(sk, rng, tg, False)
         for k in range(n_dec):
             cases.append((name, plain, PRELUDE_TYPES + fill(sk, rng, tg, True)))
-    n_gen = 40 if chk.tier == "quick" else 400
+    n_gen = 40 if chk.tier == "quick" else 2000
     for i in range(n_gen):
         r2 = common.Rng(chk.seed * 1000 + i, "c03g")
         ts_src = genprog.Gen(common.Rng(chk.seed * 1000 + i, "c03g"), features={}, ts=True).program(5, 3)
